@@ -265,6 +265,50 @@ def quiet():
         sys.stdout = old
 
 
+class LibraryFailure(Exception):
+    """An exception that ORIGINATED inside the library under test (innermost frame in the demeter package) and that no oracle of the check caught:
+    the library failed on a call that it serves on the unchanged tree. Reported as a violation of the property whose check exercised the call, not as a
+    harness error (exceptions raised in harness code - e.g. a private attribute the harness relies on disappeared - stay harness errors, exit 2)."""
+
+    def __init__(self, etype, message, where, trace):
+        super().__init__(etype, message, where, trace)
+        self.etype, self.message, self.where, self.trace = etype, message, where, trace
+
+
+def classify_exception(e):
+    """LibraryFailure if the innermost frame of e's traceback lies in the demeter package, else None."""
+    import traceback
+
+    if isinstance(e, LibraryFailure):
+        return e
+    lib = _library_path()
+    frames = traceback.extract_tb(e.__traceback__)
+    if not lib or not frames:
+        return None
+    last = frames[-1]
+    pkg = os.path.join(lib, "demeter") + os.sep
+    if not os.path.abspath(last.filename).startswith(pkg):
+        return None
+    where = f"{os.path.relpath(last.filename, lib)}:{last.name}"
+    return LibraryFailure(type(e).__name__, str(e)[:300], where, "".join(traceback.format_exception(type(e), e, e.__traceback__))[-6000:])
+
+
+class _Guarded:
+    """Picklable wrapper: a worker classifies its own uncaught exception (the parent only gets a text traceback)."""
+
+    def __init__(self, fn):
+        self.fn = fn
+
+    def __call__(self, x):
+        try:
+            return self.fn(x)
+        except Exception as e:  # noqa: BLE001
+            lf = classify_exception(e)
+            if lf is not None:
+                raise lf from None
+            raise
+
+
 def pmap(fn, items, workers=None, chunksize=1):
     """Deterministic parallel map over items (results in input order). fork context: workers inherit
     the imported library; every worker builds fresh worlds itself."""
@@ -272,6 +316,7 @@ def pmap(fn, items, workers=None, chunksize=1):
 
     items = list(items)
     workers = workers or min(16, os.cpu_count() or 1)
+    fn = _Guarded(fn)
     if workers <= 1 or len(items) <= 1 or os.environ.get("VERIF_SERIAL"):
         return [fn(x) for x in items]
     ctx = mp.get_context("fork")
